@@ -28,25 +28,33 @@ LEVEL_TEXT = ('Fault enumeration: for every sampled workbook every formula '
               'cell is perturbed in turn (number far beyond / far below the '
               'tolerance, 2x / 0.5x the tolerance, other text, negated logical, '
               'other error) under '
-              'three tolerance settings and three choices of outputs.')
+              'four tolerance settings (0 = equality) and three choices of outputs.')
 LEVEL_NOTE = ('Trusts the xlsx writer in vlib/xl.py (self-checked: the '
               'unperturbed file must validate to {}) and dep_graph '
               'descendants (C04) for "depends on".')
 RULE = ('case = (spec, perturbed formula cell, perturbation kind, '
-        'tolerance in {None, 1e-6, 1e-2}, outputs in {all, one sink, one '
+        'tolerance in {None, 1e-6, 1e-2, 0}, outputs in {all, one sink, one '
         'other cell}); non-trivial = the perturbed cell has a dependant '
         'among the checked cells; distinct = distinct case')
 ASSUMPTIONS = ['formula cells whose consistent result is blank carry no '
                'stored value and are not perturbed']
 MIN_NONTRIVIAL = {'quick': 300, 'thorough': 6000}
 
-TOLS = [None, 1e-6, 1e-2]
+TOLS = [None, 1e-6, 1e-2, 0]
 KINDS = ('big', 'small', 'neg', 'type', 'above', 'below')
 
 
 def perturb(value, kind, tol):
     """-> (new stored value, must be reported?)"""
     k = klass(value)
+    if k == 'number' and tol == 0 and kind in ('small', 'above', 'below'):
+        # tolerance 0 asks for equality: the smallest change must be reported
+        import math
+        new = {'small': value + (abs(value) * 1e-9 or 1e-12),
+               'above': math.nextafter(float(value), math.inf),
+               'below': None}[kind]
+        return (new, True) if new is not None and new != value else \
+            (None, False)
     if k == 'number':
         big = max(1.0, abs(value)) * 0.5 + (tol or 0) * 100 + 1
         small = (tol or 1e-8) * 1e-3 if tol else abs(value) * 1e-9
@@ -225,6 +233,37 @@ def check_case(rec, spec, p_idx, kind, tol_idx, out_mode, out_idx,
                              f'{U} can not be evaluated; the report also '
                              f'lists {extra}, which do not depend on it: '
                              f'{str(report)[:300]}')
+                    # ... a second cell that fails in the very same way
+                    # (same formula text, same message) is reported as well
+                    twins = [a for a in forms
+                             if a != U and a != P and P not in {
+                                 c.address.address for c in nx.descendants(
+                                     probe.dep_graph, probe.cell_map[a])}
+                             and models.feature_of(spec, a) != 'array-member'
+                             and isinstance(spec['sheets'][a.rsplit('!', 1)[0]]
+                                            .get(a.rsplit('!', 1)[1]), str)]
+                    if twins:
+                        U2 = twins[unknown_idx % len(twins)]
+                        text = '=NOSUCHFUNCTION("k")' if unknown_idx % 2 \
+                            else '=NoSuchSheet!$A$1+1'
+                        for a in (U, U2):
+                            sh, co = a.rsplit('!', 1)
+                            spec_u['sheets'][sh][co] = text
+                        path = os.path.join(tmp, 'twins.xlsx')
+                        write_xlsx_with_results(
+                            wbspec.build_spec(spec_u),
+                            models.results_by_sheet(stored), path)
+                        report2 = ExcelCompiler(filename=path).validate_calcs(
+                            tolerance=tol)
+                        listed2 = str(report2.get('not-implemented', {})) + \
+                            str(report2.get('exceptions', {}))
+                        rec.label('two-unevaluable-cells-same-text')
+                        for a in (U, U2):
+                            if f"'{a}'" not in listed2:
+                                fail('unevaluable-cell-not-reported:twin',
+                                     f'{U} and {U2} both hold {text}; the '
+                                     f'report does not list {a}: '
+                                     f'{str(report2)[:300]}')
                     if P not in report.get('mismatch', {}):
                         fail('unevaluable-cell-hides-mismatch',
                              f'with an unknown function in {U}, the '
@@ -286,7 +325,7 @@ def shards(tier, seed):
 
 
 def run_shard(shard, rec):
-    strategy = st.tuples(wbspec.specs(max_formulas=8), st.integers(0, 2),
+    strategy = st.tuples(wbspec.specs(max_formulas=8), st.integers(0, 3),
                          st.sampled_from(['all', 'all', 'one', 'one']),
                          st.integers(0, 40), st.integers(0, 40))
 
